@@ -24,5 +24,5 @@ Extraction "model.ml"
   LifecycleModel.lrun LifecycleModel.qrun LifecycleModel.q_stale LifecycleModel.frun
   ClientModel.kstep ClientModel.kinit ClientModel.final ClientModel.hrun ClientModel.h_stuck
   DispatchModel.run DispatchModel.responses
-  ShutdownModel.srun
+  ShutdownModel.srun ShutdownModel.srun_from
   HandlerModel.idle HandlerModel.serve ParserInst.typed_other_inst ParserInst.set_cookie_inst.
